@@ -321,6 +321,122 @@ theorem c17_zipPosts_nil {f : Json → R Json} {post : Json → Json → List St
 def SubOk (m : Mapping) : Prop :=
   ∀ k m', (k, Entry.sub m') ∈ m → ∀ x y, convert m' x = .ok y → postShape false (postMap m') x y = []
 
+theorem mem_keyed_postMap_inv {q : String} {pe : PEntry} : ∀ m : Mapping, pe ∈ keyed q (postMap m) →
+    ∃ e, (q, e) ∈ m ∧ pe = e.toPost
+  | [], h => by simp [postMap, keyed] at h
+  | (k, e') :: r, h => by
+    simp only [postMap, keyed_cons] at h
+    by_cases hk : k = q
+    · subst hk
+      simp only [beq_self_eq_true, if_true] at h
+      rcases List.mem_cons.mp h with h | h
+      · exact ⟨e', List.mem_cons_self, h⟩
+      · rcases mem_keyed_postMap_inv r h with ⟨e, he, hpe⟩
+        exact ⟨e, List.mem_cons_of_mem _ he, hpe⟩
+    · have hb : (k == q) = false := by simpa using hk
+      simp only [hb, Bool.false_eq_true, if_false] at h
+      rcases mem_keyed_postMap_inv r h with ⟨e, he, hpe⟩
+      exact ⟨e, List.mem_cons_of_mem _ he, hpe⟩
+
+/-- the entry is the last one for its key -/
+theorem c17_keyed_last_split {k : String} {e : Entry} {mp mr : Mapping}
+    (h : (keyed k (postMap (mp ++ (k, e) :: mr))).length = (keyed k (postMap mp)).length + 1) :
+    ∀ e', (k, e') ∉ mr := by
+  rw [postMap_append, keyed_append] at h
+  simp only [postMap, keyed_cons, beq_self_eq_true, if_true, List.length_append, List.length_cons] at h
+  have h2 : (keyed k (postMap mr)).length = 0 := by omega
+  exact keyed_nil_no_key (List.length_eq_zero_iff.mp h2)
+
+/-- loop 1 over entries whose only entries for `k` are `._mapper` entries, on an input where `k` is absent / None:
+    `k` is left alone -/
+theorem c17_loop1_frame_sub {k : String} : ∀ (mr : Mapping) (b out out' : Obj),
+    (∀ e', (k, e') ∈ mr → e'.isSub = true) → (get k b = none ∨ get k b = some .null) →
+    loop1 (compileMap mr) b out = .ok out' → get k out' = get k out
+  | [], _, out, out', _, _, h => by simp only [compileMap, loop1] at h; cases h; rfl
+  | (k', e') :: r, b, out, out', hs, hc, h => by
+    simp only [compileMap, loop1] at h
+    rcases bindE_eq_ok h with ⟨o1, h1, h2⟩
+    rw [c17_loop1_frame_sub r b o1 out' (fun e he => hs e (List.mem_cons_of_mem _ he)) hc h2]
+    by_cases hk : k' = k
+    · subst hk
+      have hsub := hs e' List.mem_cons_self
+      cases e' with
+      | sub m' =>
+        simp only [Entry.compile, step1] at h1
+        rcases hc with hc | hc
+        · simp only [hc] at h1; cases h1; rfl
+        · simp only [hc] at h1; cases h1; rfl
+      | const v => simp [Entry.isSub] at hsub
+      | deleted => simp [Entry.isSub] at hsub
+      | move p => simp [Entry.isSub] at hsub
+      | fn g a => simp [Entry.isSub] at hsub
+    · exact step1_frame _ b out o1 hk h1
+
+/-- loop 1 around the entry at a given position, given that the later entries leave its key alone in loop 1 -/
+theorem c17_loop1_at_gen {k : String} {e : Entry} (mp mr : Mapping) (b out o1 : Obj)
+    (hfr : ∀ o2 o1', loop1 (compileMap mr) b o2 = .ok o1' → get k o1' = get k o2)
+    (h1 : loop1 (compileMap (mp ++ (k, e) :: mr)) b out = .ok o1) :
+    ∃ op o2, loop1 (compileMap mp) b out = .ok op ∧ step1 k e.compile b op = .ok o2 ∧ get k o1 = get k o2 := by
+  rw [compileMap_append, loop1_append] at h1
+  rcases bindE_eq_ok h1 with ⟨op, hp, h2⟩
+  simp only [compileMap, loop1] at h2
+  rcases bindE_eq_ok h2 with ⟨o2, hs, h3⟩
+  exact ⟨op, o2, hp, hs, hfr o2 o1 h3⟩
+
+/-- the nested clause for the `._mapper` entry at a position after which nothing else is keyed alike, on a key that
+    nothing moves onto or deletes -/
+theorem c17_sub_clause (mp mr : Mapping) (k : String) (msub : Mapping) (b o1 a' : Obj) (alone : Bool)
+    (hsub : SubOk (mp ++ (k, Entry.sub msub) :: mr))
+    (h1 : loop1 (compileMap (mp ++ (k, Entry.sub msub) :: mr)) b b = .ok o1)
+    (ha : get k a' = get k (loop3 (compileMap (mp ++ (k, Entry.sub msub) :: mr))
+      (loop2 (compileMap (mp ++ (k, Entry.sub msub) :: mr)) o1)))
+    (hu2 : ∀ e', (k, e') ∉ mr)
+    (hnm : ∀ e', (k, e') ∈ mp ++ (k, Entry.sub msub) :: mr → e'.isMove = false ∧ e'.isDel = false)
+    (hal : alone = true → ∀ e', (k, e') ∉ mp) :
+    subViolations (postShape false (postMap msub)) k b a' alone = [] := by
+  have hnest := hsub k msub (by simp)
+  rcases c17_loop1_at mp mr b b o1 (fun e' he' => absurd he' (hu2 e')) h1 with ⟨op, o2, hp, hs2, hg⟩
+  have hka : get k a' = get k o2 := by
+    rw [ha, c17_after_eq o1 (fun e' he' => (hnm e' he').1) (fun e' he' => (hnm e' he').2), hg]
+  simp only [Entry.compile, step1] at hs2
+  simp only [subViolations]
+  cases hgb : get k b with
+  | none =>
+    simp only [hgb] at hs2
+    cases hs2
+    cases alone with
+    | false => simp
+    | true =>
+      have hop : get k op = get k b := c17_loop1_frameW mp b b op (fun e' he' => absurd he' (hal rfl e')) hp
+      simp [hka, hop, hgb]
+  | some c =>
+    cases c with
+    | null =>
+      simp only [hgb] at hs2
+      cases hs2
+      cases alone with
+      | false => simp
+      | true =>
+        have hop : get k op = get k b := c17_loop1_frameW mp b b op (fun e' he' => absurd he' (hal rfl e')) hp
+        simp [hka, hop, hgb, optBeq_refl]
+    | list xs =>
+      simp only [hgb] at hs2
+      rcases bindE_eq_ok hs2 with ⟨ys, hys, hs3⟩
+      cases hs3
+      have hz := c17_zipPosts_nil (f := convShape (compileMap msub)) (post := postShape false (postMap msub))
+        (fun x y hxy => hnest x y hxy) xs ys hys
+      simp [hka, get_set_same, hz]
+    | obj kvs =>
+      simp only [hgb] at hs2
+      rcases bindE_eq_ok hs2 with ⟨y, hy, hs3⟩
+      cases hs3
+      have hz := hnest (.obj kvs) y hy
+      simp [hka, get_set_same, hz]
+    | bool x => simp
+    | int x => simp
+    | str x => simp
+    | float x y => simp
+
 /-- every clause, for the entry at any position of any mapping (with unique Python keys and nested contracts) -/
 theorem c17_entry_ok (mp mr : Mapping) (k : String) (e : Entry) (hwf : keysOk (mp ++ (k, e) :: mr) = true)
     (hsub : SubOk (mp ++ (k, e) :: mr)) (b o1 a' : Obj)
@@ -339,37 +455,75 @@ theorem c17_entry_ok (mp mr : Mapping) (k : String) (e : Entry) (hwf : keysOk (m
     simp [Entry.toPost, entryViolations, this]
   | const v =>
     simp only [Entry.toPost, entryViolations]
-    by_cases hs : (keyed k (postMap (mp ++ (k, Entry.const v) :: mr))).any PEntry.isSub = true
-    · simp [hs]
-    · simp only [hs, Bool.false_eq_true, if_false]
-      have hns : ∀ e', (k, e') ∈ mp ++ (k, Entry.const v) :: mr → e'.isSub = false := by
+    by_cases hgd : (!(keyed k (postMap (mp ++ (k, Entry.const v) :: mr))).any PEntry.isSub
+        || (keyed k (postMap mp)).any PEntry.isSub || absentOrNull (get k b)) = true
+    · simp only [hgd, if_true]
+      -- the other entries keyed `k` are `._mapper` entries
+      have hkp : ∀ e', (k, e') ∈ mp → e'.isSub = true := by
         intro e' he'
-        have hmem := mem_keyed_postMap _ he'
+        have := hsplit.1 e' he'
         cases hsb : e'.isSub with
-        | false => rfl
-        | true =>
-          exfalso; apply hs
-          exact List.any_eq_true.mpr ⟨_, hmem, by rw [c17_isSub_toPost]; exact hsb⟩
-      have hup : ∀ e', (k, e') ∉ mp := by
+        | true => rfl
+        | false => exact absurd (by rw [hsb]; rfl) this
+      have hkr : ∀ e', (k, e') ∈ mr → e'.isSub = true := by
         intro e' he'
-        exact hsplit.1 e' he' (by rw [hns e' (List.mem_append_left _ he')]; rfl)
-      have hur : ∀ e', (k, e') ∉ mr := by
-        intro e' he'
-        exact hsplit.2 e' he' (by
-          rw [hns e' (List.mem_append_right _ (List.mem_cons_of_mem _ he'))]; rfl)
-      have hall : ∀ e', (k, e') ∈ mp ++ (k, Entry.const v) :: mr → e' = Entry.const v := by
+        have := hsplit.2 e' he'
+        cases hsb : e'.isSub with
+        | true => rfl
+        | false => exact absurd (by rw [hsb]; rfl) this
+      have subNot : ∀ e' : Entry, e'.isSub = true → e'.isMove = false ∧ e'.isDel = false := by
+        intro e' he'; cases e' <;> simp [Entry.isSub] at he' <;> simp [Entry.isMove, Entry.isDel]
+      have hnm : ∀ e', (k, e') ∈ mp ++ (k, Entry.const v) :: mr → e'.isMove = false ∧ e'.isDel = false := by
         intro e' he'
         rcases c17_mem_split he' with h | h | h
-        · exact absurd h (hup e')
-        · exact h
-        · exact absurd h (hur e')
-      rcases c17_loop1_at mp mr b b o1 (fun e' he' => absurd he' (hur e')) h1 with ⟨op, o2, _, hs2, hg⟩
+        · exact subNot e' (hkp e' h)
+        · rw [h]; exact ⟨rfl, rfl⟩
+        · exact subNot e' (hkr e' h)
+      -- the later entries leave `k` alone in loop 1
+      have hfr : ∀ o2 o1', loop1 (compileMap mr) b o2 = .ok o1' → get k o1' = get k o2 := by
+        intro o2 o1' hl
+        rcases Bool.or_eq_true_iff.mp hgd with hg' | hC
+        · have hnone : ∀ e', (k, e') ∉ mr := by
+            rcases Bool.or_eq_true_iff.mp hg' with hA | hB
+            · -- no `._mapper` entry for `k` at all
+              intro e' he'
+              have hmem := mem_keyed_postMap (mp ++ (k, Entry.const v) :: mr)
+                (List.mem_append_right _ (List.mem_cons_of_mem _ he'))
+              have hA' : (keyed k (postMap (mp ++ (k, Entry.const v) :: mr))).any PEntry.isSub = false := by
+                simpa using hA
+              have := List.any_eq_false.mp hA' _ hmem
+              rw [c17_isSub_toPost, hkr e' he'] at this
+              exact this rfl
+            · -- the `._mapper` entry is written before the Constant: there is no second one
+              rcases List.any_eq_true.mp hB with ⟨pe, hpe, hps⟩
+              rcases mem_keyed_postMap_inv mp hpe with ⟨es, hes, rfl⟩
+              rw [c17_isSub_toPost] at hps
+              rcases List.append_of_mem hes with ⟨a1, b1, hab⟩
+              have hwf' : keysOk (a1 ++ (k, es) :: (b1 ++ (k, Entry.const v) :: mr)) = true := by
+                rw [hab] at hwf
+                simpa [List.append_assoc] using hwf
+              have hsp := (c17_keysOk_split hwf').2
+              intro e' he'
+              have h1' := hsp e' (List.mem_append_right _ (List.mem_cons_of_mem _ he'))
+              rw [hps, hkr e' he'] at h1'
+              exact h1' rfl
+          exact c17_loop1_frameW mr b o2 o1' (fun e' he' => absurd he' (hnone e')) hl
+        · have hC' : get k b = none ∨ get k b = some .null := by
+            cases hgb : get k b with
+            | none => exact Or.inl rfl
+            | some c =>
+              cases c <;> simp [hgb, absentOrNull] at hC
+              exact Or.inr rfl
+          exact c17_loop1_frame_sub mr b o2 o1' hkr hC' hl
+      rcases c17_loop1_at_gen mp mr b b o1 hfr h1 with ⟨op, o2, _, hs2, hg⟩
       simp only [Entry.compile, step1] at hs2
       cases hs2
       have : get k a' = some v := by
-        rw [ha, c17_after_eq o1 (fun e' he' => by rw [hall e' he']; rfl) (fun e' he' => by rw [hall e' he']; rfl),
-          hg, get_set_same]
+        rw [ha, c17_after_eq o1 (fun e' he' => (hnm e' he').1) (fun e' he' => (hnm e' he').2), hg, get_set_same]
       simp [this, optBeq_refl]
+    · have : (!(keyed k (postMap (mp ++ (k, Entry.const v) :: mr))).any PEntry.isSub
+        || (keyed k (postMap mp)).any PEntry.isSub || absentOrNull (get k b)) = false := by simpa using hgd
+      simp only [this, Bool.false_eq_true, if_false]
   | fn g args =>
     simp only [Entry.toPost, entryViolations]
     by_cases hl : (keyed k (postMap (mp ++ (k, Entry.fn g args) :: mr))).length = 1
@@ -407,42 +561,26 @@ theorem c17_entry_ok (mp mr : Mapping) (k : String) (e : Entry) (hwf : keysOk (m
         · exact absurd h (hu.1 e')
         · exact h
         · exact absurd h (hu.2 e')
-      have hnest := hsub k msub (by simp)
-      rcases c17_loop1_at mp mr b b o1 (fun e' he' => absurd he' (hu.2 e')) h1 with ⟨op, o2, hp, hs2, hg⟩
-      have hop : get k op = get k b := c17_loop1_frameW mp b b op (fun e' he' => absurd he' (hu.1 e')) hp
-      have hka : get k a' = get k o2 := by
-        rw [ha, c17_after_eq o1 (fun e' he' => by rw [hall e' he']; rfl) (fun e' he' => by rw [hall e' he']; rfl), hg]
-      simp only [Entry.compile, step1] at hs2
-      cases hgb : get k b with
-      | none =>
-        simp only [hgb] at hs2
-        cases hs2
-        simp [hka, hop, hgb]
-      | some c =>
-        cases c with
-        | null =>
-          simp only [hgb] at hs2
-          cases hs2
-          simp [hka, hop, hgb, optBeq_refl]
-        | list xs =>
-          simp only [hgb] at hs2
-          rcases bindE_eq_ok hs2 with ⟨ys, hys, hs3⟩
-          cases hs3
-          have hz := c17_zipPosts_nil (f := convShape (compileMap msub)) (post := postShape false (postMap msub))
-            (fun x y hxy => hnest x y hxy) xs ys hys
-          simp [hka, get_set_same, hz]
-        | obj kvs =>
-          simp only [hgb] at hs2
-          rcases bindE_eq_ok hs2 with ⟨y, hy, hs3⟩
-          cases hs3
-          have hz := hnest (.obj kvs) y hy
-          simp [hka, get_set_same, hz]
-        | bool x => simp
-        | int x => simp
-        | str x => simp
-        | float x y => simp
-    · have : ((keyed k (postMap (mp ++ (k, Entry.sub msub) :: mr))).length == 1) = false := by simpa using hl
-      simp [this]
+      exact c17_sub_clause mp mr k msub b o1 a' true hsub h1 ha hu.2
+        (fun e' he' => by rw [hall e' he']; exact ⟨rfl, rfl⟩) (fun _ => hu.1)
+    · have hl' : ((keyed k (postMap (mp ++ (k, Entry.sub msub) :: mr))).length == 1) = false := by simpa using hl
+      simp only [hl', Bool.false_eq_true, if_false]
+      by_cases hg2 : ((keyed k (postMap (mp ++ (k, Entry.sub msub) :: mr))).length == (keyed k (postMap mp)).length + 1
+          && (keyed k (postMap (mp ++ (k, Entry.sub msub) :: mr))).all PEntry.isWriter1) = true
+      · simp only [hg2, if_true]
+        simp only [Bool.and_eq_true, beq_iff_eq] at hg2
+        have hu2 := c17_keyed_last_split hg2.1
+        have w1Not : ∀ e' : Entry, e'.isW1 = true → e'.isMove = false ∧ e'.isDel = false := by
+          intro e' he'; cases e' <;> simp [Entry.isW1] at he' <;> simp [Entry.isMove, Entry.isDel]
+        have hnm : ∀ e', (k, e') ∈ mp ++ (k, Entry.sub msub) :: mr → e'.isMove = false ∧ e'.isDel = false := by
+          intro e' he'
+          have := (List.all_eq_true.mp hg2.2) _ (mem_keyed_postMap _ he')
+          rw [c17_isWriter1_toPost] at this
+          exact w1Not e' this
+        exact c17_sub_clause mp mr k msub b o1 a' false hsub h1 ha hu2 hnm (fun h => by cases h)
+      · have : ((keyed k (postMap (mp ++ (k, Entry.sub msub) :: mr))).length == (keyed k (postMap mp)).length + 1
+          && (keyed k (postMap (mp ++ (k, Entry.sub msub) :: mr))).all PEntry.isWriter1) = false := by simpa using hg2
+        simp only [this, Bool.false_eq_true, if_false]
   | move p =>
     cases p with
     | nil => simp [Entry.toPost, entryViolations]
